@@ -22,6 +22,8 @@ type Case struct {
 	Fresh bool   `json:"fresh,omitempty"` // run in a fresh interpreter (not the long-lived one of the child)
 	NoEffect bool `json:"noeffect,omitempty"` // composite routes: the effect check does not apply
 	Hist string `json:"hist,omitempty"` // history stream: <prefix>@<placement>
+	NR   int    `json:"nr,omitempty"`   // reference-slot stream: number of reference variables
+	RS   []rsOp `json:"rs,omitempty"`   // reference-slot stream: the program
 }
 
 type runner struct {
@@ -32,6 +34,7 @@ type runner struct {
 	crashes int // child processes lost to a fatal error / hang
 	fresh bool // the next script runs in a fresh interpreter
 	sigs  map[string]string // every violation signature seen → coordinates of its first case (debug dump)
+	have  map[string]bool // built-ins the interpreter has (probed once)
 	hstats map[string]map[string]int // history stream: per prefix, how often it ran to its end / threw / was rejected
 }
 
